@@ -80,7 +80,7 @@ def cases(tier, seed):
 
     # ---- complete sub-space: one fixed pair of frames (duplicates, keys missing on both sides),
     #      how x key form x strategy x partition counts x indicator -------------------------------
-    pcounts = ((1, 1), (1, 3), (3, 1), (2, 3), (3, 2), (3, 3))
+    pcounts = ((1, 3), (3, 1), (2, 3), (3, 2), (3, 3)) if tier == "quick" else ((1, 1), (1, 3), (3, 1), (2, 3), (3, 2), (3, 3), (2, 5))
     forms = ("on", "ii", "ci", "ic") if tier == "quick" else ("on", "on2", "lr", "ii", "ci", "ic")
     for how in HOWS:
         for form in forms:
